@@ -23,7 +23,8 @@ class C11(TieCheck):
     pid = "C11"
     area = "Dispatch"
     props = "Props_C11.v"
-    extra_props = [("Compose", "Props_Compose.v")]
+    extra_props = [("Compose", "Props_Compose.v"), ("Compose", "Props_Compose2.v")]
+    gentie = "C11"
     harness = "c11"
     extra_trust = [
         "model: coq/Dispatch/Dispatch.v transliterates Router.ServeHTTP (fox.go:531-653) with tree.lookup as a parameter; "
